@@ -200,6 +200,18 @@ STR_INT = uf('py_str_int', ['int'], 'str', lambda i: str(i), axiom=(
     lambda a, r: _re.fullmatch(r'-?[0-9]+', r) is not None and (a[0] < 0) == r.startswith('-') and int(r) == a[0],
     [[0], [-1], [5], [10**20], [-10**20]]))
 ZFILL = uf('py_zfill', ['str', 'int'], 'str', lambda s, n: s.zfill(n))
+
+
+def _ax_bitlen(args, res):
+    n, r = to_int(args[0]), to_int(res)
+    a = z3.If(n >= 0, n, -n)
+    return z3.And(r >= 0, (n == 0) == (r == 0), z3.Implies(a == 1, r == 1), z3.Implies(a >= 2, r >= 2), z3.Implies(a >= 4, r >= 3))
+
+
+BITLEN = uf('py_int_bit_length', ['int'], 'int', lambda n: int(n).bit_length(), axiom=(
+    'int.bit_length(n) is 0 exactly for n == 0, 1 for |n| == 1, >= 2 for |n| >= 2, >= 3 for |n| >= 4', _ax_bitlen,
+    lambda a, r: r >= 0 and (a[0] == 0) == (r == 0) and (abs(a[0]) != 1 or r == 1) and (abs(a[0]) < 2 or r >= 2) and (abs(a[0]) < 4 or r >= 3),
+    [[0], [1], [-1], [2], [-3], [4], [2 ** 64], [-2 ** 70]]))
 def _fmt_uf(fn, name, chars):
     return uf(name, ['int'], 'str', lambda v: fn(v)[2:] if v >= 0 else '', axiom=(
         f'{fn.__name__}(v)[2:] for v >= 0 is a non-empty string over {chars}', _ax_digits(chars),
@@ -401,6 +413,7 @@ SYM_NUM_METHODS = {
     '__float__': lambda it, x: Sym(to_real(x), 'real'),
     '__int__': lambda it, x: m_int(it, x),
     'conjugate': lambda it, x: x,
+    'bit_length': lambda it, x: BITLEN(x) if x.k == 'int' else (_ for _ in ()).throw(RaiseEx(AttributeError("'float' object has no attribute 'bit_length'"))),
 }
 
 
